@@ -97,7 +97,21 @@ def interpDT (ext : Ext) (dt : DataType) (nullable : Bool) (md : Metadata) : SVa
   | .some v => interpDT ext dt nullable md v
   | .newtypeStruct _ v => interpDT ext dt nullable md v
   | .none | .unit => interpNull dt nullable md
-  | .seq xs | .tuple xs | .tupleStruct _ xs =>
+  | .seq xs =>
+    if isUnknownVariant dt md then fail "unknown variant" else
+    match dt with
+    | .list (.mk _ cdt cn cmd) | .largeList (.mk _ cdt cn cmd) => do
+      pure (.list (LVals.ofList (← interpAll ext cdt cn cmd xs)))
+    | .fixedSizeList (.mk _ cdt cn cmd) n => do
+      let vs ← interpAll ext cdt cn cmd xs
+      if (vs.length : Int) = n then pure (.list (LVals.ofList vs)) else fail "wrong element count"
+    | .binary | .largeBinary | .binaryView => do pure (.bin (← u8All xs))
+    | .fixedSizeBinary n => do
+      let b ← u8All xs
+      if (b.length : Int) = n then pure (.bin b) else fail "wrong length"
+    | .struct _ => fail "a sequence is not a presentation of a record"
+    | _ => fail "not a sequence type"
+  | .tuple xs | .tupleStruct _ xs =>
     if isUnknownVariant dt md then fail "unknown variant" else
     match dt with
     | .list (.mk _ cdt cn cmd) | .largeList (.mk _ cdt cn cmd) => do
